@@ -9,10 +9,16 @@ if r.returncode != 0:
     print('APPLY FAILED', r.stderr); sys.exit(2)
 fired = {}
 try:
-    for pid in props:
-        r = subprocess.run(['/verif/check', pid, 'quick'], stdout=subprocess.PIPE, stderr=subprocess.STDOUT, text=True)
+    import re as _re
+    from concurrent.futures import ThreadPoolExecutor
+    subprocess.run(['python3', '-m', 'sa.extract', 'default', 'serde'], cwd='/verif', stdout=subprocess.DEVNULL, stderr=subprocess.DEVNULL)
+
+    def one(pid):
+        return pid, subprocess.run(['/verif/check', pid, 'quick'], stdout=subprocess.PIPE, stderr=subprocess.STDOUT, text=True)
+    with ThreadPoolExecutor(10) as ex:
+        results = list(ex.map(one, props))
+    for pid, r in results:
         if r.returncode != 0:
-            import re as _re
             rules = sorted({l.split()[1] for l in r.stdout.splitlines() if l.startswith('  rule ') and _re.search(r'failed=[1-9]', l)})
             rules = [x for x in rules if (pid, x) not in {('C02', 'R02.1'), ('C06', 'R06.2'), ('C06', 'R06.3')} or 'VIOLATION' in r.stdout and any(('rule %s at' % x) in l for l in r.stdout.splitlines())]
             if rules:
